@@ -2324,6 +2324,10 @@ impl<'a> CompilerState<'a> {
                 Rule::func_decl => {
                     self.compile_func_decl(pair.into_inner())?;
                 }
+                Rule::func_vec_decl => {
+                    let start = pair.as_span().start();
+                    return Err(self.syntax_error("Arrays of function pointers are not supported", start));
+                }
                 Rule::included_assembler => {
                     //debug!("Assembler: {:?}", pair);
                     let str = pair.into_inner().next().unwrap().as_str();
